@@ -465,6 +465,16 @@ func (t *State) verifyRWSetPermission(tx *pb.Transaction, verifiedID map[string]
 			if verifiedID[accountName] {
 				continue
 			}
+			// the rule in force is read from the confirmed chain. A transaction that cites an
+			// existing version of the account while the chain knows no rule for it changes an
+			// account whose creation is still pending: that rule cannot be checked yet, and
+			// without one everybody would pass
+			if t.citesExistingVersion(tx, bucket, key) {
+				if acl, err := t.queryAccountACL(accountName); err != nil || acl == nil {
+					t.log.Warn("verifyRWSetPermission failed, the account's rule is not confirmed yet", "account", accountName, "error", err)
+					return false, ErrInvalidAccount
+				}
+			}
 			ok, err := aclu.IdentifyAccount(t.sctx.AclMgr, accountName, tx.AuthRequire)
 			if !ok {
 				t.log.Warn("verifyRWSetPermission check account bucket failed",
@@ -507,6 +517,16 @@ func (t *State) verifyRWSetPermission(tx *pb.Transaction, verifiedID map[string]
 		}
 	}
 	return true, nil
+}
+
+// citesExistingVersion tells whether the transaction read bucket/key at a version some transaction wrote
+func (t *State) citesExistingVersion(tx *pb.Transaction, bucket string, key []byte) bool {
+	for _, in := range tx.TxInputsExt {
+		if in.Bucket == bucket && bytes.Equal(in.Key, key) && len(in.RefTxid) > 0 {
+			return true
+		}
+	}
+	return false
 }
 
 // verifyContractValid verify the permission of contract requests using ACL
